@@ -7,7 +7,7 @@ unified_dataset() and in Dataset(rankings_cons), which is exactly the uncontroll
 depends on. Oracle: reference scorer on the spied start rankings.
 """
 from .. import gen, model
-from ..lib import build_dataset, build_scheme, canon_ranking, jsonable_ranking
+from ..lib import build_dataset, build_scheme, canon_ranking, jsonable_ranking, uses_random
 from ..seed import digest
 from .common import Discard, run_alg, well_formed, dataset_tags
 
@@ -20,7 +20,7 @@ RULE = ("case = (dataset with independent first-appearance / insertion orders, v
 LEVEL_TEXT = ("seeded search over datasets x schemes x starter lists x pivot schedules x hash seeds; each result is "
               "compared by the reference scorer with the start rankings recorded by spy peers in the same run")
 ASSUMPTIONS = ["reference scorer; dyadic penalties for exact comparisons (1e-6 slack otherwise)"]
-EXPECTED_PROBES = ["starter_compared", "input_compared", "all_tied_compared", "equal_scores_checked", "kwiksort_starter"]
+EXPECTED_PROBES = ["starter_compared", "own_consensus_compared", "input_compared", "all_tied_compared", "equal_scores_checked", "kwiksort_starter"]
 
 
 def gen_case(st, tier, env):
@@ -92,6 +92,15 @@ def run_case(case, ctx):
                         "all returned rankings share the best score found", t, out.label)
             ctx.violations[-1]["case_override"] = repro
         starters = c["alg"].get("starters") or ([{"alg": "BordaCount"}] if c["alg"]["alg"] == "BioCo" else [])
+        # every *deterministic* starter has one well-defined consensus of its own, whether or not BioConsert asked
+        # for it: compute it directly (a starter silently dropped from the list is still a starting algorithm)
+        for st_spec in starters:
+            if uses_random(st_spec):
+                continue
+            own = run_alg(st_spec, ds, sc, True, None)
+            if own.kind == "returned" and not well_formed(own.cons, mr, False):
+                ctx.probe("own_consensus_compared")
+                worse_than(canon_ranking(own.cons.consensus_rankings[0]), "own-consensus:" + st_spec["alg"])
         if out.spies:
             for spy in out.spies:
                 for rec in spy.calls:
